@@ -446,7 +446,8 @@ package dt
 // sorted by sort.SliceStable (trusted model: stable sorted permutation, with
 // ghost witnesses sortperm / sortinv) and the elements are linked back in
 // slice order. Element identity and the items are untouched (the Set's hash
-// index keeps pointing at the right elements).
+// index keeps pointing at the right elements): under C18 the items are outside
+// the frame; C17 speaks about the values only and grants them.
 // ---------------------------------------------------------------------------
 
 //@ func (*List).SortQuick$1
@@ -459,6 +460,7 @@ package dt
 //@   props C17 C18
 //@   requires l != nil && lwf(l) && lt != nil
 //@   modifies l.root, List.length, Element.list, Element.next, Element.prev, List.elems, List.lastIns, Element.idx
+//@   modifies[C17] Element.item
 //@   ensures lwf(l) && len(l.elems) == len(old(l.elems))
 //@   ensures perm: forall k: int :: 0 <= k && k < len(l.elems) ==> 0 <= sortperm(k) && sortperm(k) < len(l.elems) && l.elems[k] == old(l.elems)[sortperm(k)]
 //@   ensures bij: forall k: int :: 0 <= k && k < len(l.elems) ==> 0 <= sortinv(k) && sortinv(k) < len(l.elems) && sortperm(sortinv(k)) == k && sortinv(sortperm(k)) == k
